@@ -194,7 +194,8 @@ class Parser(BaseParser):
             target=p1,
             annotation=p[3],
             value=p[5] if len(p) >= 6 else None,
-            simple=1,
+            # PEP 526: "simple" only for a bare, unparenthesised name
+            simple=int(isinstance(p1, ast.Name) and not hasattr(p1, "_lopen_lineno")),
             lineno=lineno,
             col_offset=col,
         )
